@@ -79,6 +79,7 @@ def fresh_replay(path, prop, hashseed='0'):
 
 def run_check(prop, tier, base_seed, runs_override=None, workers=None):
     t0 = core.now_wall()
+    core.TIER = tier
     m = machine(prop)
     kf = core.KnownFindings()
     known = kf.for_prop(prop)
